@@ -454,6 +454,10 @@ namespace bluetoe {
                 }
                 else if ( args.type == attribute_access_type::write )
                 {
+                    // just a check for write permissions
+                    if ( args.write_check )
+                        return details::attribute_access_result::success;
+
                     if ( args.buffer_size + args.buffer_offset > flags_size )
                         return details::attribute_access_result::invalid_attribute_value_length;
 
